@@ -14,6 +14,7 @@ CONSTANTS
   InitRate = 6000
   F6Quirk = FALSE
   F7Quirk = FALSE
+  PoorShare = 0
   CsvOpener = 5
   CsvOther = 4
   Thaw = 600
